@@ -2,7 +2,7 @@
    libraries are universally quantified functions constrained by the contracts
    paccept_complete / paccept_sound / pload_contract / vload_contract / hts_iter_contract /
    hts_region_contract of C07_Proofs). *)
-From HV Require Import Prelude BpText C07_Text C07_Files C07_Model C07_Check C07_ProofsText C07_Proofs C07_ProofsWide.
+From HV Require Import Prelude BpText C07_Text C07_Files C07_Model C07_Check C07_ProofsText C07_Proofs C07_ProofsWide C07_Hist C07_ProofsHist.
 
 (* the chunk loop "for start in range(0, len(l), c): l[start:start+c]" visits
    every element exactly once, in order, for every list and every c >= 1 *)
@@ -586,3 +586,104 @@ Theorem C07_pload_okb_sound :
   forall s l : scall, pload_okb s l = true <-> pload_rel s l.
 Proof. exact pload_okb_sound. Qed.
 Print Assumptions C07_pload_okb_sound.
+
+(* ---- a path with a past (C07_Hist): state an earlier write left on disk ------------------
+
+   what a sibling index declares about the number of records is an input the anchored reader
+   provably never uses: any two claims (or none), with or without a region *)
+Theorem C07_index_records_irrelevant :
+  forall (vload : vcall -> Z * Z * Z) (hts : htslib) (ir ir' : option Z) (region : option Z) (d : vdisk),
+  vcf_read_ix vload hts false ir region d = vcf_read_ix vload hts false ir' region d
+  /\ vcf_read_ix vload hts false ir region d = vcf_read vload hts false false region d.
+Proof. exact index_records_irrelevant_both. Qed.
+Print Assumptions C07_index_records_irrelevant.
+
+(* from ANY state of the disk, after ANY sequence of writes, indexings (.tbi / .csi), changes of
+   the index's modification time, removals of the index and reads on one path, the read returns
+   what the matrix LAST written returns from a fresh path without an index *)
+Theorem C07_history_read_is_last_write :
+  forall (vload : vcall -> Z * Z * Z) (hts : htslib) (fmt : vfmt) (s0 : disk) (ops : list op) (g : geno),
+  hts_iter_contract hts -> last_write ops None = Some g ->
+  read_disk vload hts false fmt (run s0 ops) = vcf_roundtrip_model vload hts false false fmt I_none g.
+Proof. exact history_read_is_last_write. Qed.
+Print Assumptions C07_history_read_is_last_write.
+
+Theorem C07_history_irrelevant :
+  forall (vload : vcall -> Z * Z * Z) (hts : htslib) (fmt fmt' : vfmt) (s0 s0' : disk) (ops ops' : list op) (g : geno),
+  hts_iter_contract hts -> last_write ops None = Some g -> last_write ops' None = Some g ->
+  read_disk vload hts false fmt (run s0 ops) = read_disk vload hts false fmt' (run s0' ops').
+Proof. exact history_irrelevant. Qed.
+Print Assumptions C07_history_irrelevant.
+
+(* ... which is the matrix last written (the property, on a path with a past) *)
+Theorem C07_history_roundtrip :
+  forall (vload : vcall -> Z * Z * Z) (hts : htslib) (fmt : vfmt) (s0 : disk) (ops : list op) (g : geno),
+  vload_contract vload -> hts_iter_contract hts ->
+  last_write ops None = Some g -> geno_domb true g = true -> 1 <= lenZ (g_variants g) ->
+  exists g', read_disk vload hts false fmt (run s0 ops) = Ok g' /\ rt_rel g g'.
+Proof. exact history_roundtrip. Qed.
+Print Assumptions C07_history_roundtrip.
+
+Theorem C07_history_empty_roundtrip :
+  forall (vload : vcall -> Z * Z * Z) (hts : htslib) (fmt : vfmt) (s0 : disk) (ops : list op) (g : geno),
+  hts_iter_contract hts -> last_write ops None = Some g ->
+  lenZ (g_rows g) = lenZ (g_variants g) -> g_samples g = [] \/ g_variants g = [] ->
+  exists g', read_disk vload hts false fmt (run s0 ops) = Ok g' /\ empty_rel g g'.
+Proof. exact history_empty_roundtrip. Qed.
+Print Assumptions C07_history_empty_roundtrip.
+
+(* a reader that takes the record count from the index ("max_variants = num_records" when no
+   region is requested) is indistinguishable from the anchored one as long as the index was built
+   from the file that is read: write; index; anything but a write ... *)
+Theorem C07_trusting_reader_fresh_index :
+  forall (vload : vcall -> Z * Z * Z) (hts : htslib) (fmt : vfmt) (s : disk) (g : geno) (k : vidx) (tail : list op),
+  hts_iter_contract hts -> k <> I_none -> nowrite tail = true ->
+  read_disk vload hts true fmt (run (step (step s (OpWrite g)) (OpIndex k)) tail)
+  = vcf_roundtrip_model vload hts false false fmt I_none g.
+Proof. exact trusting_fresh. Qed.
+Print Assumptions C07_trusting_reader_fresh_index.
+
+(* ... and returns the first variant only of a two-variant matrix written over an indexed
+   one-variant file (no error); the other order goes unnoticed *)
+Theorem C07_trusting_reader_refuted :
+  hist_domb ops_stale = true /\ last_write ops_stale None = Some g_two
+  /\ run disk0 ops_stale = mkdk (Some (vcf_write g_two)) (Some (mkix I_tbi 1 false))
+  /\ (exists g', read_disk vload_std hts_std false F_vcfgz (run disk0 ops_stale) = Ok g' /\ same_geno g_two g' = true)
+  /\ read_disk vload_std hts_std true F_vcfgz (run disk0 ops_stale)
+     = Ok (mkg [0] [mkvar 0 0 28 [0; 1] 1] [[(0, 1, 1)]] [1; 1; 3])
+  /\ (forall g', read_disk vload_std hts_std true F_vcfgz (run disk0 ops_stale) = Ok g' -> same_geno g_two g' = false)
+  /\ read_disk vload_std hts_std true F_vcfgz (run disk0 (ops_stale ++ [OpTouch true]))
+     = read_disk vload_std hts_std true F_vcfgz (run disk0 ops_stale)
+  /\ (exists g', read_disk vload_std hts_std true F_vcfgz (run disk0 (ops_stale ++ [OpIndex I_tbi])) = Ok g' /\ same_geno g_two g' = true)
+  /\ (exists g', read_disk vload_std hts_std true F_vcfgz (run disk0 (ops_stale ++ [OpUnindex])) = Ok g' /\ same_geno g_two g' = true)
+  /\ (exists g', read_disk vload_std hts_std true F_bcf (run disk0 [OpWrite g_two; OpIndex I_csi; OpWrite g_one]) = Ok g'
+                 /\ same_geno g_one g' = true).
+Proof. exact trusting_reader_refuted. Qed.
+Print Assumptions C07_trusting_reader_refuted.
+
+(* what holds = true of the history relation means: the demand of the vcf relation on the matrix
+   last written *)
+Theorem C07_holds_hist_sound :
+  forall (k : hcase) (g : geno),
+  holds_hist k = true -> hc_back k <> Err E_Unobserved ->
+  hist_domb (hc_ops k) = true -> last_write (hc_ops k) None = Some g ->
+  exists g', hc_back k = Ok g'
+    /\ (g_samples g <> [] -> g_variants g <> [] -> rt_rel g g')
+    /\ (g_samples g = [] \/ g_variants g = [] -> empty_rel g g').
+Proof. exact holds_hist_sound. Qed.
+Print Assumptions C07_holds_hist_sound.
+
+(* the model the relation compares with is the anchored reader at the end of the history *)
+Theorem C07_model_hist_back :
+  forall (k : hcase) (g : geno),
+  guard_ops (hc_ops k) = None -> last_write (hc_ops k) None = Some g ->
+  snd (model_hist k) = vcf_roundtrip_model vload_std hts_std false false (hc_fmt k) I_none g.
+Proof. exact model_hist_back. Qed.
+Print Assumptions C07_model_hist_back.
+
+Theorem C07_hist_hypotheses_satisfiable :
+  hts_iter_contract hts_std /\ vload_contract vload_std
+  /\ last_write ops_stale None = Some g_two /\ geno_domb true g_two = true /\ 1 <= lenZ (g_variants g_two)
+  /\ guard_ops ops_stale = None /\ nowrite [OpIndex I_csi; OpTouch true; OpRead; OpUnindex] = true.
+Proof. exact hist_hypotheses_satisfiable. Qed.
+Print Assumptions C07_hist_hypotheses_satisfiable.
